@@ -202,12 +202,15 @@ class WorldProc:
 class Hist:
     """One history: talks to the harness and mirrors the snapshot layout of World/Observe.v."""
 
-    def __init__(self, nu, nd, nt, maxp, ubal, fbal, tdecs, stream="random", note=None, look=None):
+    def __init__(self, nu, nd, nt, maxp, ubal, fbal, tdecs, stream="random", note=None, look=None, proxies=0):
         self.nu, self.nd, self.nt, self.maxp = nu, nd, nt, maxp
         self.ubal, self.fbal, self.tdecs = ubal, fbal, list(tdecs)
         self.stream, self.note = stream, note
         self.look = look        # (d, t): bank denom d is spelled like the address of contract t (the model keeps them apart)
+        self.proxies = proxies  # the last `proxies` users are generic proxy CONTRACTS on the chain (ordinary accounts to the model)
         self.proc = WorldProc()
+        if proxies:
+            self.proc.ask("proxies %d" % proxies)
         if look is not None:
             self.proc.ask("lookalike %d %d" % look)
         out = self.proc.ask("init %d %d %d %d %d %d %s" % (nu, nd, nt, maxp, ubal, fbal, " ".join(str(t) for t in tdecs)))
@@ -342,7 +345,7 @@ class HistCase(Case):
         Case.__init__(self, "hist", [], [], h.stream, h.note)
         self.h = h
         self.results = []
-        self._key = hashlib.sha1(repr((h.nu, h.nd, h.nt, h.maxp, h.ubal, h.fbal, h.tdecs, h.look,
+        self._key = hashlib.sha1(repr((h.nu, h.nd, h.nt, h.maxp, h.ubal, h.fbal, h.tdecs, h.look, h.proxies,
                                        [(s[0], s[1]) for s in h.steps])).encode()).hexdigest()
 
     def key(self):
@@ -374,7 +377,7 @@ class HistCase(Case):
         return {"checker": "hist", "stream": self.stream, "note": self.note,
                 "world": {"users": h.nu, "denoms": h.nd, "tokens": h.nt, "maxpairs": h.maxp, "user_balance": str(h.ubal),
                           "factory_balance": str(h.fbal), "token_decimals": h.tdecs,
-                          "lookalike": list(h.look) if h.look else None},
+                          "lookalike": list(h.look) if h.look else None, "proxies": h.proxies},
                 "steps": [{"op": op_line(s[0]), "ok": s[1], "swap_attrs": [str(x) for x in s[2]],
                            "quote": [str(x) for x in s[3]], "changed_slots": len(s[4]),
                            "queries": [q[0] for q in s[5]]} for s in h.steps]}
@@ -408,7 +411,7 @@ def replay_hist(j):
     """rebuild a history from its JSON form by re-running the operations on the real code"""
     w = j["world"]
     h = Hist(w["users"], w["denoms"], w["tokens"], w["maxpairs"], int(w["user_balance"]), int(w["factory_balance"]),
-             w["token_decimals"], "replay", look=tuple(w["lookalike"]) if w.get("lookalike") else None)
+             w["token_decimals"], "replay", look=tuple(w["lookalike"]) if w.get("lookalike") else None, proxies=w.get("proxies", 0))
     for s in j["steps"]:
         for ql in s.get("queries", []):
             kq = ql.split()[0]
@@ -759,7 +762,7 @@ def general_histories(rng, tier, n_hist=None, steps=None):
     cases = []
     for hi in range(n_hist):
         ubal = pick_scale(rng)
-        h = Hist(4, 2, 2, 4, ubal, 1000, [rng.choice([6, 18]), rng.choice([6, 8])], "random")
+        h = Hist(4, 2, 2, 4, ubal, 1000, [rng.choice([6, 18]), rng.choice([6, 8])], "random", proxies=(hi // 2) % 2)
         kinds = [(("n", 0), ("n", 1)), (("n", 0), ("t", 2)), (("t", 2), ("t", 3))]
         if rng.random() < 0.5:
             kinds.append((("n", 1), ("t", 3)))
@@ -1196,7 +1199,8 @@ def lp_handover_histories(rng, tier):
     cases = []
     kinds = [(("n", 0), ("t", 2)), (("t", 2), ("t", 3)), (("n", 0), ("n", 1))]
     for rep in range({"quick": 1, "thorough": 4}[tier]):
-        h = Hist(4, 2, 2, 3, 10 ** 15, 1000, [6, 18], "directed-matrix", "LP handed over by transfer, then withdrawn")
+        # the last two users are proxy contracts: LP held, handed over and redeemed by contracts
+        h = Hist(4, 2, 2, 3, 10 ** 15, 1000, [6, 18], "directed-matrix", "LP handed over by transfer, then withdrawn", proxies=2)
         created = setup_pairs(h, rng, kinds, comm=3 * 10 ** 15, scale=10 ** 9, native_decs=[6, 6])
         for i, p in enumerate(created):
             lp = h.pair_lp(p)
